@@ -117,6 +117,13 @@ fn peek(fd: RawFd, max: usize) -> Result<Vec<u8>, i32> {
     }
 }
 
+pub fn fd_writable(fd: RawFd) -> bool {
+    let mut p = libc::pollfd { fd, events: libc::POLLOUT, revents: 0 };
+    // SAFETY: one pollfd
+    let r = unsafe { libc::poll(&mut p, 1, 0) };
+    r > 0 && (p.revents & libc::POLLOUT) != 0
+}
+
 pub fn fd_ready(fd: RawFd) -> bool {
     let mut p = libc::pollfd { fd, events: libc::POLLIN, revents: 0 };
     // SAFETY: one pollfd
@@ -322,6 +329,29 @@ impl World {
         out
     }
 
+    /// Validate the kernel model (lean/MicroHttp/Kernel.lean, assumption E7) against the real kernel: per
+    /// connection the unread byte count, whether the peer is gone, whether the socket is writable — and the
+    /// set of connection descriptors epoll actually reports. The model predicts that set from its interest map.
+    pub fn kern_probe(&mut self, rec: &mut Rec) {
+        if self.server.is_none() {
+            return;
+        }
+        let mut evs: [libc::epoll_event; 12] = [libc::epoll_event { events: 0, u64: 0 }; 12];
+        // SAFETY: array of 12 events
+        let n = unsafe { libc::epoll_wait(self.epfd, evs.as_mut_ptr(), 12, 0) };
+        let n = if n < 0 { 0 } else { n as usize };
+        let mut reported: Vec<RawFd> = evs.iter().take(n).map(|e| e.u64 as RawFd).filter(|fd| self.by_fd.contains_key(fd)).collect();
+        reported.sort();
+        let mut entries = vec![];
+        for (fd, i) in &self.by_fd {
+            let c = &self.clients[*i];
+            let gone = c.closed || c.wr_shut;
+            entries.push(format!("{}:{}:{}:{}", fd, fionread(*fd), if gone { 1 } else { 0 }, if fd_writable(*fd) { 1 } else { 0 }));
+        }
+        let out = format!("ready=[{}]", reported.iter().map(|f| f.to_string()).collect::<Vec<_>>().join(","));
+        self.emit(rec, format!("srv kern {}", entries.join(" ")).trim_end().to_string(), out);
+    }
+
     /// One `requests()` call (only when the epoll fd is ready, unless `force`), recorded as a `srv poll` op.
     /// Returns false if the server was not ready.
     pub fn poll(&mut self, rec: &mut Rec) -> bool {
@@ -329,6 +359,7 @@ impl World {
             return false;
         }
         self.polls += 1;
+        self.kern_probe(rec);
         // what the server's epoll_wait is about to return
         let mut evs: [libc::epoll_event; 12] = [libc::epoll_event { events: 0, u64: 0 }; 12];
         // SAFETY: array of 12 events
